@@ -98,8 +98,11 @@ def run(pid, tier):
                                 "truncated": stats.get("truncated", False), "wall_s": stats["wall_s"],
                                 "cases": stats["cases"]}
     tot_states = tot_trans = tot_edges = 0
+    # a graph far larger than the specification predicts (a badly broken implementation): the edge
+    # comparison is sampled so that the run stays bounded; the monitor still runs on the whole graph
+    stride = 1 + stats["edges"] // 400000
     for levels, tag0 in IMPL_RUNS:
-        first = vel.impl_tlc(nodes, cases_file, d, levels, "both", tag0 + "-both")
+        first = vel.impl_tlc(nodes, cases_file, d, levels, "both", tag0 + "-both", stride=stride)
         todo = [("both", tag0 + "-both", first)]
         if first["violated"]:
             todo = [(m, "%s-%s" % (tag0, m), vel.impl_tlc(nodes, cases_file, d, levels, m, "%s-%s" % (tag0, m), conform=False))
@@ -111,7 +114,7 @@ def run(pid, tier):
                 rep[k] = first["report"][k]
             cov["legs"]["B_impl_" + tag] = {
                 "impl_states": rep["nodes"], "impl_states_expanded": rep["expanded"], "impl_edges": rep["edges"],
-                "approved_edges": rep["approved"], "graphs": rep["roots"], "product_states": r["distinct"],
+                "approved_edges": rep["approved"], "graphs": rep["roots"], "conformance_stride": rep.get("stride", 1), "product_states": r["distinct"],
                 "product_transitions": r["states"], "spec_divergences": rep["ndivergent"],
                 "failed_calls": rep["nfailed"], "init_mismatch": rep["init_bad"], "violated": r["violated"],
                 "wall_s": round(r["wall_s"], 1)}
@@ -132,6 +135,35 @@ def run(pid, tier):
                         " ; ".join("%s(dt=%d,a=%d)->%s" % (s["op"], s["dt"], s["a"],
                                                           {1: "ok", 0: "refused"}.get(s["ok"], "error")) for s in seq)),
                     "replay": _replay_obj(case, seq, mon)})
+
+    # ---- leg B again (thorough): the same exploration on a build with integer-overflow checks on
+    # (the default harness build uses production arithmetic: wrap-around); a panic is recorded as a
+    # failed call, an approval beyond the limit is a violation as before
+    if not quick:
+        bin2 = vel.build_overflow_checks()
+        nodes2, stats2 = vel.explore(bin2, cases_file, d, threads=8, out="nodes_ovf.ndjson")
+        r2 = vel.impl_tlc(nodes2, cases_file, d, "all", "both", "ovf-both", stride=1 + stats2["edges"] // 400000)
+        rep2 = r2["report"]
+        cov["legs"]["B_impl_overflow_checks_build"] = {
+            "impl_states": rep2["nodes"], "impl_edges": rep2["edges"], "approved_edges": rep2["approved"],
+            "product_states": r2["distinct"], "product_transitions": r2["states"],
+            "spec_divergences": rep2["ndivergent"], "failed_calls": rep2["nfailed"], "violated": r2["violated"],
+            "wall_s": round(r2["wall_s"] + stats2["wall_s"], 1)}
+        tot_states += r2["distinct"]
+        tot_trans += r2["states"]
+        tot_edges += rep2["edges"]
+        divergences += [{"run": "overflow-checks", **x} for x in (rep2["divergences"][:5] + rep2["failed"][:5])]
+        if r2["violated"]:
+            seq = vel.trace_steps(r2["trace"])
+            case = cases[_case_index(cases, seq[-1]["case"]) - 1]
+            for mon in ("pay", "fee"):
+                if any(s["op"] == "Onchain" for s in seq) == (mon == "fee"):
+                    violations.append({
+                        "key": vel.key_of(case["level"], mon, seq),
+                        "what": "window sum exceeds the limit on the overflow-checked build (case %s): %s" % (
+                            case["id"], " ; ".join("%s(dt=%d,a=%d)->%s" % (s["op"], s["dt"], s["a"],
+                                                   {1: "ok", 0: "refused"}.get(s["ok"], "error")) for s in seq)),
+                        "replay": _replay_obj(case, seq, mon)})
 
     # ---- leg C: model behaviours replayed through the implementation from a fresh signer
     nsim, depth = (40, 30) if quick else (300, 50)
